@@ -43,7 +43,7 @@ META = {
 }
 
 OPTIONS = {  # name: [base, alternatives...]
-    "a": [1.0, 3.0], "b": [1.0, 2.0], "e": [1.0, 0.5], "p": [0.3, 0.15], "n": [3, 5],
+    "a": [1.0, 3.0, 0.0], "b": [1.0, 2.0, 0.0], "e": [1.0, 0.5], "p": [0.3, 0.15], "n": [3, 5],
     "d": ["absolute", "numerical", "levenshtein"], "m": [False, True], "c": [False, True], "k": [False, True],
     "seed": [7, 8], "s": [",", ";"], "out": ["stdout", "csv", "json"], "fmt": ["csv", "rttm"], "files": [1, 2, "2r", 3],
 }
@@ -81,6 +81,14 @@ def configs(tier):
         cfg.update({"d": d, "out": o, "c": c, "k": k, "m": m})
         if cfg not in out:
             out.append(cfg)
+    # weights at 0 x categorical dissimilarity x gamma-cat / gamma-k (an option cancelled in gamma still acts elsewhere)
+    for a, b in ((1.0, 0.0), (0.0, 1.0), (3.0, 0.0)):
+        for d in OPTIONS["d"]:
+            for c, k in ((True, False), (False, True), (True, True)):
+                cfg = base_point()
+                cfg.update({"a": a, "b": b, "d": d, "c": c, "k": k})
+                if cfg not in out:
+                    out.append(cfg)
     # four runs at the parser's own defaults for -p / -n / --seed
     for d in ("absolute", "numerical"):
         for m in (False, True):
